@@ -330,7 +330,7 @@ pub fn run(ctx: &Ctx) -> Result<Ev, String> {
     }
     total.class_n("deterministic-chain-shapes", det.len() as u64);
     let shards = 32usize;
-    let per = (if ctx.thorough { 500_000 } else { 20_000 } / shards) as u32;
+    let per = (if ctx.thorough { 1_500_000 } else { 100_000 } / shards) as u32;
     let seed = ctx.seed;
     let ev = par::run_shards("C08", shards, |s| par::prop_shard("C08", seed, s, per, &raw_case(), |c, ev| test(c, ev, &opts)));
     total.merge(ev);
